@@ -10,5 +10,5 @@ CONSTANTS
   Shapes <- RouteShapesQuick
   ErrClasses = {}
   Bug = {}
-INVARIANTS InvalidNeverSent ServerClean SockIsParam ParsersAgree CCBLastHash HostPortLastColon RequestShape
+INVARIANTS InvalidNeverSent ServerClean SockIsParam ParsersAgree CCBLastHash HostPortLastColon RequestShape CtxHonoured
 CHECK_DEADLOCK FALSE
